@@ -1197,6 +1197,107 @@ theorem read_dates_noasof (log : List Version) (h : Ordered log) (st : Store) (h
   · rintro ⟨v, hv, _, hd⟩; exact ⟨v, hv, hd⟩
   · rintro ⟨v, hv, hd⟩; exact ⟨v, hv, hM v hv, hd⟩
 
+/-! ### the dates of the FIRST read (review t5): "no row for dates first published after T" for `what = 0`, stated on the read itself
+    (so far only implied by `read_first` and the definition of `specFirst`) -/
+
+/-- the first read and the default read return the same dates, for every read time (with or without as-of) -/
+theorem read_first_index (log : List Version) (h : Ordered log) (T : Option Int) (st : Store) (hst : history log = some st) :
+    (biRead st T 0).index = (biRead st T (-1)).index := by
+  obtain ⟨s1, e1, r1⟩ := read_spec log h T
+  obtain ⟨s2, e2, r2⟩ := read_first log h T
+  rw [hst] at e1 e2; cases e1; cases e2
+  rw [r1, r2]
+  simp [specRead, specFirst, TS.index, List.map_map, Function.comp_def]
+
+/-- the dates a first read (`what = 0`) as of `T` returns are exactly the dates with a publication stamped `≤ T`: no row for dates
+    first published after `T` (mirror of `read_dates`) -/
+theorem read_first_dates (log : List Version) (h : Ordered log) (T : Int) (st : Store) (hst : history log = some st) (d : Int) :
+    d ∈ (biRead st (some T) 0).index ↔ ∃ v ∈ log, v.stamp ≤ T ∧ d ∈ v.ts.index := by
+  rw [read_first_index log h (some T) st hst, read_dates log h T st hst]
+
+/-- the dates of the first read without as-of time: exactly the dates some version contains -/
+theorem read_first_dates_noasof (log : List Version) (h : Ordered log) (st : Store) (hst : history log = some st) (d : Int) :
+    d ∈ (biRead st Option.none 0).index ↔ ∃ v ∈ log, d ∈ v.ts.index := by
+  rw [read_first_index log h Option.none st hst, read_dates_noasof log h st hst]
+
+/-- every date is read once: the index of an as-of read (default or first) has no repeated date - together with `read_dates` /
+    `read_first_dates` this fixes the index of the read as a SET and its multiplicity, independently of `specRead` -/
+theorem read_index_nodup (log : List Version) (h : Ordered log) (T : Option Int) (st : Store) (hst : history log = some st) :
+    (biRead st T (-1)).index.Nodup ∧ (biRead st T 0).index.Nodup := by
+  rw [read_first_index log h T st hst, and_self]
+  obtain ⟨s1, e1, r1⟩ := read_spec log h T
+  rw [hst] at e1; cases e1
+  rw [r1]
+  simp only [specRead, TS.index, List.map_map, Function.comp_def, List.map_id']
+  exact dates_nodup _
+
+/-! ### re-merging SEVERAL stored versions (review t5): `merge_idem_future` speaks of one re-merge -/
+
+/-- `Remerged st ws st'`: starting from the store `st` the versions `ws` are merged again one after the other, each of them being in
+    the store AT THAT MOMENT (every row of it is a row of the current store); `st'` is the store after the last of them -/
+inductive Remerged : Store → List Version → Store → Prop
+  | nil (st : Store) : Remerged st [] st
+  | cons {st st' : Store} (w : Version) {ws : List Version} (hin : ∀ p ∈ w.ts, (⟨p.1, w.stamp, p.2⟩ : Row) ∈ st)
+      (rest : Remerged (biMerge (some st) (Bi w.ts w.stamp)) ws st') : Remerged st (w :: ws) st'
+
+theorem inv_remerged {st st' : Store} {log : List Version} {ws : List Version} (hr : Remerged st ws st')
+    (h : Inv st (logRows log)) : Inv st' (logRows log) := by
+  induction hr with
+  | nil => exact h
+  | cons w hin _ ih => exact ih (inv_remerge h w hin)
+
+/-- **idempotence, n-fold**: after re-merging ANY NUMBER of stored versions, in any order (each one in the store when it is merged again;
+    stamps in any order, the same version several times), no as-of read and no first read has changed, and the history goes on as if
+    none of the re-merges had happened: with any stamp-ordered continuation `later` every read is the fold of `log ++ later`. -/
+theorem merge_idem_many (log : List Version) (h : Ordered log) (st : Store) (hst : history log = some st)
+    (ws : List Version) (st' : Store) (hws : Remerged st ws st')
+    (later : List Version) (hl : Ordered (log ++ later)) (T : Option Int) :
+    ∃ st₁, later.foldl (fun s v => some (biMerge s (Bi v.ts v.stamp))) (some st') = some st₁ ∧
+      biRead st₁ T (-1) = specRead (log ++ later) T ∧ biRead st₁ T 0 = specFirst (log ++ later) T := by
+  obtain ⟨st0, hst0, hinv⟩ := history_inv log h.ne h.wf h.stamps
+  rw [hst] at hst0; cases hst0
+  have hs := logRows_sorted _ hl.stamps
+  obtain ⟨st₁, e1, i1⟩ := inv_foldl later _ log (inv_remerged hws hinv) hs
+  have hsl : ∀ d, SortedLe (group d (logRows (log ++ later))) := fun d => hs.sublist List.filter_sublist
+  refine ⟨st₁, e1, ?_, ?_⟩
+  · rw [biRead_last st₁ i1.1, specRead_eq, specRows_congr i1.2.1]
+  · rw [biRead_first st₁ i1.1, specFirst_eq]
+    exact firstRows_congr i1.2.1 (fun d => (i1.1 d).1.le) hsl T
+
+/-- the case without continuation: the store after the re-merges reads as the store before them -/
+theorem merge_idem_many_reads (log : List Version) (h : Ordered log) (st : Store) (hst : history log = some st)
+    (ws : List Version) (st' : Store) (hws : Remerged st ws st') (T : Option Int) :
+    biRead st' T (-1) = biRead st T (-1) ∧ biRead st' T 0 = biRead st T 0 := by
+  obtain ⟨st₁, e1, r1, f1⟩ := merge_idem_many log h st hst ws st' hws [] (by simpa using h) T
+  obtain ⟨s2, e2, r2⟩ := read_spec log h T
+  obtain ⟨s3, e3, r3⟩ := read_first log h T
+  rw [hst] at e2 e3; cases e2; cases e3
+  simp only [List.foldl_nil, Option.some.injEq] at e1; subst e1
+  simp only [List.append_nil] at r1 f1
+  exact ⟨r1.trans r2.symm, f1.trans r3.symm⟩
+
+/-- the chain of re-merges as a computation (for `#guard`: `history` sorts with `List.mergeSort`, which the kernel does not unfold) -/
+def remergeChain (st : Store) : List Version → Option Store
+  | [] => some st
+  | w :: ws => if w.ts.all (fun p => decide ((⟨p.1, w.stamp, p.2⟩ : Row) ∈ st)) then remergeChain (biMerge (some st) (Bi w.ts w.stamp)) ws
+      else Option.none
+
+theorem remerged_of_chain (st : Store) (ws : List Version) (st' : Store) (h : remergeChain st ws = some st') : Remerged st ws st' := by
+  induction ws generalizing st with
+  | nil => simp only [remergeChain, Option.some.injEq] at h; subst h; exact .nil _
+  | cons w ws ih =>
+    simp only [remergeChain] at h
+    split at h
+    · rename_i hall
+      exact .cons w (fun p hp => by simpa using List.all_eq_true.mp hall p hp) (ih _ h)
+    · cases h
+
+-- satisfiable, non-trivially: `3@10 (dates 1,2), 5@11, 3@12`; re-merge the version stamped 12, then the one stamped 10, then 12 again
+#guard ((history [⟨10, [(1, some 3), (2, some 1)]⟩, ⟨11, [(1, some 5)]⟩, ⟨12, [(1, some 3)]⟩]).bind fun st =>
+    remergeChain st [⟨12, [(1, some 3)]⟩, ⟨10, [(1, some 3), (2, some 1)]⟩, ⟨12, [(1, some 3)]⟩]).isSome
+-- and a version that was overridden under its own stamp is NOT re-mergeable in this sense (`5@10, 6@10`: the row `5@10` is gone)
+#guard ((history [⟨10, [(1, some 5)]⟩, ⟨10, [(1, some 6)]⟩]).bind fun st => remergeChain st [⟨10, [(1, some 5)]⟩]).isNone
+
 /-! ### batches as the code runs them (review s5): `read_spec_batches` is about the total `historyL`; `historyLE` folds the raising
     `biMergeLE` that the driver compares with the code -/
 
